@@ -157,6 +157,7 @@ def run(chk):
     n = 3000 if chk.thorough else 450
     cases = [gen_case(rng, chk.thorough) for _ in range(n)]
     bad = X.run_cases(chk, cases, 'c01')
+    shrunk = []
     shapes = {}
     for c in cases:
         k = f"{len(c['hier'])}cls"
@@ -168,6 +169,7 @@ def run(chk):
     chk.x_stats['correspondence'] = {'cases': len(cases), 'disagreements': len(bad), 'hierarchy_sizes': shapes, 'op_mix': opmix}
     for i in bad[:3]:
         small = X.shrink(chk, cases[i], 'c01')
+        shrunk.append((cases[i], small))
         chk.unshown_add(f"correspondence:case{i}", "model and implementation disagree; shrunk history: " + json.dumps(small, default=str)[:1500])
     # oracle on the same cases (the property itself, stated on the implementation)
     order = [cases[i] for i in bad] + cases
@@ -179,6 +181,8 @@ def run(chk):
         if not oracle_case(chk, c):
             break
     chk.cov['distinct_nontrivial'] += len(seen)
+    if shrunk and not chk.failures:
+        X.report_deviation(chk, shrunk[0][0], shrunk[0][1], 'dev')
     chk.sample(ser(cases[0]))
     chk.cov['rule'] = ("seeded random class hierarchies (chains, diamonds, mixins, trees; hooks re-declared in subclasses) x histories "
                        "of register (plain/wrapper, three tiers, any owner) / remove / remove-via-other-class / class touches / reads "
